@@ -36,7 +36,7 @@ tvars == <<vars, l, pend, wev>>
 
 Ev == Trace[l]
 Relaxed == cfg.relaxed
-NoHead == [num |-> -1, incl |-> {}, rev |-> {}, energy |-> << >>, basefee |-> <<0, 0, 0>>, gala |-> FALSE, synced |-> FALSE]
+NoHead == [num |-> -1, incl |-> {}, rev |-> {}, energy |-> << >>, basefee |-> <<0, 0, 0>>, bf |-> "0", gala |-> FALSE, synced |-> FALSE]
 
 Fresh(c) ==
   /\ cfg = c /\ txs = << >> /\ objs = << >> /\ byHash = << >> /\ byID = << >> /\ quota = << >> /\ cost = << >>
@@ -56,7 +56,7 @@ TxEv ==
   /\ txs' = Put(txs, Ev.h, Ev.tx)
   /\ UNCHANGED <<cfg, objs, byHash, byID, quota, cost, pub, head, blocked, tick, w, lastDrop, pend, wev>>
 
-HeadOf(r) == [num |-> r.num, incl |-> SeqSet(r.incl), rev |-> SeqSet(r.rev), energy |-> r.energy, basefee |-> r.basefee, gala |-> r.gala,
+HeadOf(r) == [num |-> r.num, incl |-> SeqSet(r.incl), rev |-> SeqSet(r.rev), energy |-> r.energy, basefee |-> r.basefee, bf |-> r.bf, gala |-> r.gala,
               synced |-> r.synced]
 HeadEv ==
   /\ Ev.e = "Head"
@@ -107,7 +107,7 @@ AddLockEv ==
                 /\ Ev.x = exec /\ Ev.priced = exec /\ Ev.src = p.src
                 /\ Ev.qo = At(quota', tx.org, 0)
                 /\ (tx.dlg # None => Ev.qd = At(quota', tx.dlg, 0))
-                /\ (exec => /\ Ev.cost = tx.cost /\ Ev.pay = Payer(tx) /\ PrioOK(Ev.prio, Ev.h, p.hd)
+                /\ (exec => /\ Ev.cost = CostAt(tx, p.hd) /\ Ev.pay = Payer(tx) /\ PrioOK(Ev.prio, Ev.h, p.hd)
                             /\ Ev.cp = At(cost', Payer(tx), 0)))
   /\ UNCHANGED <<cfg, txs, pub, head, blocked, w, lastDrop, wev>>
 
@@ -230,7 +230,7 @@ EvalEv ==
         /\ (e.r = "drop" => e.why = Ev.why)
         /\ WashEval(outlived, IF Ev.priced THEN Ev.prio ELSE <<>>)
         /\ (e.r = "exec" => /\ Ev.priced /\ Ev.cost = objs'[Ev.o].cost /\ Ev.pay = objs'[Ev.o].pay
-                            /\ (~objs[Ev.o].flag => Ev.cost = txs[Ev.h].cost /\ PrioOK(Ev.prio, Ev.h, w.hd)))
+                            /\ (~objs[Ev.o].flag => Ev.cost = CostAt(txs[Ev.h], w.hd) /\ PrioOK(Ev.prio, Ev.h, w.hd)))
   /\ UNCHANGED <<pend, wev>>
 
 WashErrorEv == Ev.e = "wash_error" /\ WashFail /\ UNCHANGED <<pend, wev>>
